@@ -124,5 +124,13 @@ META["C16"] = {
     "note": "F9 (nulls were read from the activity's top level instead of the object) was a genuine defect, repaired (fix: commit). Trusted: Lean kernel, transcription (replay-validated).",
 }
 
+META["C18"] = {
+    "category": "proof",
+    "design_ref": "DESIGN.md section 5 / C18",
+    "technique": "Lean 4: refinement of the generated container template (elements carrying their own index, Next/Prev navigating by it, re-index loops) to a plain list — per-operation simulation lemmas, the 'every element knows its index' invariant, forward/backward walk theorems by induction on fuel, lifted to arbitrary operation sequences by induction on the sequence; functional slot theorem. Tie: T2 regenerates, on every run, the normalised method-body hashes of all 103 generated properties and compares them with the transcribed template; reflection harness drives every property through random operation sequences against the model and the plain list.",
+    "text": "For every operation sequence of any length: values, length, indexed access, forward and backward iteration equal the plain list's, and an out-of-range index fails exactly where the list operation is undefined. Proved once for the template; T2 shows every generated property instantiates that template.",
+    "note": "F10 (Swap did not re-index the swapped elements, truncating iteration) was a genuine defect, repaired in generator and generated code (fix: commit). 'Each element reports exactly the kind last stored' is checked by the harness per kind (the model is kind-agnostic: a value is kind+payload).",
+}
+
 _ALL = ["C%02d" % i for i in range(1, 21)]
 NOT_APPLICABLE = [{"property_id": p, "reason": PENDING} for p in _ALL if p not in META]
